@@ -8,6 +8,8 @@ def run(ctx):
     c.tlc_l1(ctx, "Watermark.tla", "MC_Watermark.cfg", workers=4)
     for w in ("Reach_AllowedDrop", "Reach_Side"):
         c.tlc_l1(ctx, "Watermark.tla", "MC_Watermark_%s.cfg" % w, expect_violation=w, workers=2)
+    # unbounded: the same state machine (WatermarkInd.tla) with an inductive invariant, for ALL timestamps, delays and lateness values
+    c.apalache_inductive(ctx, "WatermarkInd.tla", "Init", "IndInit", "IndInv", wrong="Wrong")
     # the abstract state is (config, wm, max): the complete graph is dumped and covered
     # the statement is invariant under the choice of time unit: the same behaviours are replayed with every spec quantity
     # (timestamp, delay, lateness) multiplied by a unit in milliseconds - all units just above one second, and some large ones
@@ -18,7 +20,8 @@ def run(ctx):
     else:
         c.graph_leg(ctx, "Watermark.tla", "watermark", "Gen_Watermark.cfg", {}, 100000, 13, 5, "Sim_Watermark.cfg", 30000, 14, variants=V, variant_walks=0)
     ctx.cov["exhaustive"] = True
-    ctx.cov["rule"] = ("the complete reachable graph of Watermark.tla over (delay, strategy, lateness) x (watermark, max timestamp) "
+    ctx.cov["rule"] = ("design level, unbounded: Apalache proves IndInv (watermark equation, monotonicity, late-iff-below, exactly-once, "
+                       "statistics identities, strategy obeyed) inductive for WatermarkInd.tla over all naturals; code level: the complete reachable graph of Watermark.tla over (delay, strategy, lateness) x (watermark, max timestamp) "
                        "with timestamps 0..6 is dumped by TLC; every transition, all offer sequences to the all-histories depth "
                        "(after the configuration step), seeded walks and TLC-simulated behaviours of 12 offers are replayed on the real "
                        "WatermarkedStream; after every add_event: current watermark, whether watermark_history grew by exactly that value, "
